@@ -487,6 +487,9 @@ func (r *Run) opPARPush(st Step) {
 
 func (r *Run) opAuthorizePAR(st Step) {
 	pc := r.L.Select(st.G, "par")
+	if st.p("latest") != "" {
+		pc = r.L.SelectFromEnd(0, "par")
+	}
 	q := url.Values{}
 	var cs *ClientSpec
 	uri := ""
